@@ -34,7 +34,8 @@ def merge_chains(system, chains, all_chains):
     If a molecule comprises multiple chains, then it is merged only if all the
     chains it comprises are part of the selection.
 
-    The meta variable are not conserved in the process.
+    The meta variable are not conserved in the process, except for the
+    preprocessor defines ("define") that the merged interactions rely on.
 
     The input system is modified in-place.
 
@@ -71,6 +72,10 @@ def merge_chains(system, chains, all_chains):
                 merged.nrexcl = molecule.nrexcl
                 new_molecules.append(merged)
             merged.merge_molecule(molecule)
+            # The preprocessor defines (e.g. POSRES_FC set by ApplyPosres) are
+            # needed to write the interactions that were just merged in.
+            if 'define' in molecule.meta:
+                merged.meta.setdefault('define', {}).update(molecule.meta['define'])
             has_merged = True
         else:
             new_molecules.append(molecule)
